@@ -19,6 +19,9 @@ RULE = (
     "(1000,1000) (up to several hundred points, every tie/multiplicity the lattice produces). "
     "ALL ordered pairs per stratum (and across strata for bases of <= 1 point) are executed with both "
     "distances, plus a reordered+diagonal-points variant and an affine variant per pair; ALL triples "
+    "per stratum are checked for the triangle inequality. A second family without ties: deterministic Weyl-"
+    "sequence diagrams of 48..96 (thorough ..250) generic points, ALL ordered pairs against reference values "
+    "from an independent threshold search (scipy bipartite matching) / assignment, same variants, ALL triples; "
     "per stratum are checked for the triangle inequality. Replication oracle: d_B(kS,kT)=d_B(S,T), "
     "W(kS,kT)=k*W(S,T) with d(S,T) certified by brute force. state = one ordered pair of family "
     "members; transition = one persim distance call; non-trivial = pair of different diagrams with "
@@ -41,9 +44,87 @@ DIAG_X = [[2.0, 2.0]]
 DIAG_Y = [[0.0, 0.0], [1.5, 1.5], [1000.0, 1000.0]]
 
 
+# ---- "generic" large diagrams: a deterministic Weyl (irrational rotation) family, no ties --------
+GENERIC = {"quick": {"n": [48, 64, 96], "k": 4}, "thorough": {"n": [48, 64, 96, 150, 250], "k": 4}}
+
+
+def weyl(n, k):
+    """n points: births spread over [0,10) by the golden rotation, persistences skewed to small."""
+    phi = (math.sqrt(5.0) - 1.0) / 2.0
+    s2 = math.sqrt(2.0) - 1.0
+    pts = []
+    for i in range(1, n + 1):
+        b = (((i + 17 * k) * phi) % 1.0) * 10.0
+        p = ((((i + 5 * k) * s2) % 1.0) ** 2) * 3.0
+        pts.append([b, b + p])
+    return pts
+
+
+def generic_members(tier):
+    g = GENERIC[tier]
+    return [(n, k) for n in g["n"] for k in range(g["k"])]
+
+
+def generic_pair_laws(ctx, ma, mb, want_sym=False):
+    """Pair of generic large diagrams: exact reference values (threshold search with scipy's bipartite
+    matching / assignment on an independently built matrix) + invariances."""
+    X, Y = weyl(*ma), weyl(*mb)
+    case = {"kind": "gen-pair", "a": list(ma), "b": list(mb)}
+    bad = lambda sig, msg, obs=None, exp=None: ctx.violation(sig, msg, observed=obs, expected=exp, case=case)  # noqa: E731
+    b, w = dists(ctx, X, Y)
+    ctx.state(("gen", ma, mb))
+    ctx.valid(3)
+    if not (is_num(b) and is_num(w) and np.isfinite(b) and np.isfinite(w)):
+        bad("not-a-number", "distance is not a finite number", [b, w])
+        return None
+    b, w = float(b), float(w)
+    ctx.outcome((round(b, 9), round(w, 9)))
+    rb, rw = om.bottleneck_large_ref(X, Y), om.wasserstein_large_ref(X, Y)
+    if abs(b - rb) > 1e-12 * max(1.0, rb):
+        bad("bottleneck-value", "bottleneck of two generic %d/%d-point diagrams differs from the reference threshold search" % (len(X), len(Y)), b, rb)
+    if abs(w - rw) > wtol(rw):
+        bad("wasserstein-value", "Wasserstein of two generic %d/%d-point diagrams differs from the reference assignment" % (len(X), len(Y)), w, rw)
+    if b < 0 or b > w + wtol(w):
+        bad("bottleneck-exceeds-wasserstein", "0 <= bottleneck <= Wasserstein violated", [b, w])
+    if ma == mb and (b != 0.0 or abs(w) > WTOL):
+        bad("self-distance", "distance of a diagram to itself is not 0", [b, w], 0)
+    if ma != mb:
+        ctx.nontriv("generic_large_pair", key=("gen", ma, mb))
+    # variant 1: rows reordered + diagonal points added on both sides
+    r = len(X) // 3
+    X1 = [[3.3, 3.3]] + X[r:] + X[:r] + [[0.0, 0.0]]
+    Y1 = Y[::-1] + [[7.25, 7.25], [1.5, 1.5], [1000.0, 1000.0]]
+    b1, w1 = dists(ctx, X1, Y1)
+    ctx.valid()
+    if not (is_num(b1) and is_num(w1)) or abs(b1 - b) > 1e-12 or abs(w1 - w) > wtol(w):
+        bad("reorder-diagonal-invariance", "value changed after reordering rows and adding diagonal points", [b1, w1], [b, w])
+    # variant 2: affine map (scale 0.1, shift -3.7) on both diagrams
+    a, c = AFFINE
+    b2, w2 = dists(ctx, [[a * p[0] + c, a * p[1] + c] for p in X], [[a * p[0] + c, a * p[1] + c] for p in Y])
+    ctx.valid()
+    if not (is_num(b2) and is_num(w2)) or abs(b2 - a * b) > 1e-11 or abs(w2 - a * w) > wtol(a * w) + 1e-11 * (len(X) + len(Y)):
+        bad("affine-equivariance", "value is not |a| * d after x -> a*x + c on both diagrams", [b2, w2], [a * b, a * w])
+    # against the empty diagram and against itself plus diagonal points
+    if ma == mb:
+        be, we = dists(ctx, X, [])
+        pers = [p[1] - p[0] for p in X]
+        ctx.valid()
+        if abs(be - max(pers) / 2.0) > 1e-12 or abs(we - math.fsum(pers) / math.sqrt(2.0)) > wtol(we):
+            bad("vs-empty", "distance to the empty diagram is not max persistence/2 resp. total persistence/sqrt2", [be, we])
+        bd, wd = dists(ctx, X + [[2.0, 2.0], [9.5, 9.5]], X[::-1])
+        ctx.valid()
+        if bd != 0.0 or abs(wd) > WTOL:
+            bad("self-distance", "d(X + diagonal points, reordered X) is not 0", [bd, wd], 0)
+    if want_sym:
+        b3, w3 = dists(ctx, Y, X)
+        if abs(b3 - b) > 1e-12 or abs(w3 - w) > wtol(w):
+            bad("symmetry", "d(X,Y) != d(Y,X)", [b3, w3], [b, w])
+    return b, w
+
+
 def bounds(tier):
     return {"strata(n,k,two_cluster)": STRATA[tier], "lattice_G": 3, "far_shift": FAR,
-            "affine_variant": AFFINE, "hash_groups": HASH_GROUPS[tier]}
+            "affine_variant": AFFINE, "hash_groups": HASH_GROUPS[tier], "generic_weyl_family": GENERIC[tier]}
 
 
 def bases(n):
@@ -168,8 +249,15 @@ def run_shard(ctx):
         for y in range(len(cross)):
             if cross[x][0] != cross[y][0]:
                 todo.append(("cross", x, y))
+    gen = generic_members(tier)
+    for x in range(len(gen)):
+        for y in range(len(gen)):
+            todo.append(("gen", x, y))
+
     # heaviest first so that the shards finish together
     def weight(t):
+        if t[0] == "gen":
+            return max(gen[t[1]][0], gen[t[2]][0]) * 3
         if t[0] == "cross":
             return max(cross[t[1]][0][1] * (2 if cross[t[1]][0][2] else 1), cross[t[2]][0][1] * (2 if cross[t[2]][0][2] else 1))
         return t[0][1] * (2 if t[0][2] else 1) * t[0][0]
@@ -178,7 +266,12 @@ def run_shard(ctx):
     for idx, t in enumerate(todo):
         if idx % ctx.nshards != ctx.shard:
             continue
-        if t[0] == "cross":
+        if t[0] == "gen":
+            ma, mb = gen[t[1]], gen[t[2]]
+            res = [None]
+            ctx.run_case(_M, {"kind": "gen-pair", "a": list(ma), "b": list(mb)}, fn=lambda c, cx: res.__setitem__(0, generic_pair_laws(cx, ma, mb)))
+            table[t] = res[0]
+        elif t[0] == "cross":
             (sx, i), (sy, j) = cross[t[1]], cross[t[2]]
             case = {"kind": "cross", "sx": list(sx), "sy": list(sy), "S": B1[i], "T": B1[j]}
             res = [None]
@@ -196,7 +289,7 @@ def run_shard(ctx):
     for part in allgather(ctx, "c07_phase1", table):
         full.update(part)
     # ---------------- phase 2: symmetry + triangle inequality on ALL triples (numpy, per stratum)
-    jobs = [("st", st) for st in strata] + [("cross", None)]
+    jobs = [("st", st) for st in strata] + [("cross", None), ("gen", None)]
     for jx, (kind, st) in enumerate(jobs):
         if jx % ctx.nshards != ctx.shard:
             continue
@@ -205,6 +298,10 @@ def run_shard(ctx):
             N = len(B)
             name = lambda i: {"stratum": list(st), "base": B[i]}  # noqa: E731
             get = lambda i, j: full.get((st, i, j))  # noqa: E731
+        elif kind == "gen":
+            N = len(gen)
+            name = lambda x: {"weyl": list(gen[x])}  # noqa: E731
+            get = lambda x, y: full.get(("gen", x, y))  # noqa: E731
         else:
             N = len(cross)
             name = lambda x: {"stratum": list(cross[x][0]), "base": B1[cross[x][1]]}  # noqa: E731
@@ -221,7 +318,7 @@ def run_shard(ctx):
                     if v is not None:
                         D[i, j] = v[which]
             ok = ~np.isnan(D)
-            tol = 0.0 if which == 0 else WTOL * max(1.0, np.nanmax(D) if ok.any() else 1.0)
+            tol = (1e-12 if kind == "gen" else 0.0) if which == 0 else WTOL * max(1.0, np.nanmax(D) if ok.any() else 1.0)
             # symmetry
             asym = np.argwhere(ok & ok.T & (np.abs(D - D.T) > tol))
             ctx.valid(int(ok.sum()))
@@ -276,8 +373,10 @@ def run_case(case, ctx):
         pair_laws(ctx, tup(case["stratum"]), case["S"], case["T"], want_sym=True)
     elif kind == "cross":
         cross_laws(ctx, tup(case["sx"]), tup(case["sy"]), case["S"], case["T"])
+    elif kind == "gen-pair":
+        generic_pair_laws(ctx, tuple(int(v) for v in case["a"]), tuple(int(v) for v in case["b"]), want_sym=True)
     elif kind in ("sym", "triple"):
-        mk = lambda m: rep(m["base"], int(m["stratum"][1]), bool(m["stratum"][2]))  # noqa: E731
+        mk = lambda m: weyl(*[int(v) for v in m["weyl"]]) if "weyl" in m else rep(m["base"], int(m["stratum"][1]), bool(m["stratum"][2]))  # noqa: E731
         X, Y = mk(case["X"]), mk(case["Y"])
         bxy, wxy = dists(ctx, X, Y)
         byx, wyx = dists(ctx, Y, X)
